@@ -71,6 +71,10 @@ Qed.
 
 (* ---------------------------------------------------------------- the relation between the world of the model and the oracle's books *)
 Definition warned_lv (ls : list lvl) : list bool := map l_warned ls.
+(* below this id everything the recorder handed out is back, or is a buffer requested with nothing installed *)
+Definition lim (w : world) (s : gs) : N :=
+  match w_stk w with [] => N.of_nat (length (fst (q_bk s))) | _ :: _ => q_base s end.
+Definition direct_live (s : gs) (id : N) : Prop := exists e, In e (q_live s) /\ le_own e = 0 /\ le_id e = id.
 Record GR (w : world) (s : gs) : Prop := {
   gr_nx : w_nx w = N.of_nat (length (fst (q_bk s)));
   gr_ser : q_nser s = w_ser w + 1;
@@ -87,8 +91,23 @@ Record GR (w : world) (s : gs) : Prop := {
   gr_seen : forall id c, In (id, c) (q_seen s) ->
             match c with Some sz => szof (fst (q_bk s)) id = Some sz /\ In sz class_sizes
                        | None => exists a, cached_bound < a /\ szof (fst (q_bk s)) id = Some a end;
-  gr_ok : w_stk w <> [] -> OK (w_stk w) [] (q_live s) (q_bk s) (q_base s)
+  gr_ok : w_stk w <> [] -> OK (w_stk w) [] (q_live s) (q_bk s) (q_base s);
+  gr_fnd : NoDup (snd (q_bk s));
+  gr_below : forall id, id < lim w s -> In id (snd (q_bk s)) \/ direct_live s id
 }.
+
+Lemma apply_evs_nodup : forall l c p bk bk', apply_evs c p bk l = Some bk' -> NoDup (snd bk) -> NoDup (snd bk').
+Proof.
+  induction l as [|e r IH]; intros c p bk bk' H N; simpl in H; [inversion H; subst; exact N|].
+  destruct (apply_ev c p bk e) as [bk1|] eqn:E; [|discriminate]. apply (IH _ _ _ _ H).
+  destruct e as [id sz|id sz]; simpl in E.
+  - destruct (id =? N.of_nat (length (fst bk))); [|discriminate]. inversion E; subst. exact N.
+  - destruct (szof (fst bk) id) as [a|]; [|discriminate]. destruct (memN id (snd bk)) eqn:M; [discriminate|]. simpl in E.
+    destruct (negb (size_ok a sz c)); [discriminate|]. simpl in E. destruct (memN id p); [discriminate|].
+    inversion E; subst. cbn [snd]. constructor; [apply memN_false; exact M | exact N].
+Qed.
+Lemma direct_live_iff : forall s s' id, (forall e, le_own e = 0 -> (In e (q_live s') <-> In e (q_live s))) -> direct_live s id -> direct_live s' id.
+Proof. intros s s' id H [e [H1 [H2 H3]]]. exists e. split; [apply H; assumption | auto]. Qed.
 
 Lemma gfind_live_spec : forall l id off req own, NoDup (lids l) -> In (id, off, req, own) l -> gfind_live l id off = Some (req, own).
 Proof.
@@ -201,7 +220,7 @@ Proof.
     + exists s', p. split; [exact C1|]. split; [|split; [reflexivity|split; [exact C3|split; [reflexivity | auto]]]].
       assert (Ets : top_ser s = 0) by (unfold top_ser; rewrite Elv; reflexivity).
       destruct C8 as [C8|[C8 _]]; [|elim C8; exact Elv].
-      constructor; cbn [w_stk w_nx w_ser w_res]; rewrite ?C2, ?C3, ?C4, ?C5, ?C6, ?C7, ?C8; cbn [fst snd].
+      constructor; unfold lim; cbn [w_stk w_nx w_ser w_res]; rewrite ?C2, ?C3, ?C4, ?C5, ?C6, ?C7, ?C8; cbn [fst snd].
       * rewrite app_length. simpl. lia.
       * apply (gr_ser _ _ G).
       * rewrite Elv. reflexivity.
@@ -223,6 +242,12 @@ Proof.
            intros Hne. elim Hne. reflexivity.
       * apply szof_ext_seen. apply (gr_seen _ _ G).
       * intros Hne. elim Hne. reflexivity.
+      * apply (gr_fnd _ _ G).
+      * intros id Hid. rewrite app_length in Hid. simpl in Hid. unfold direct_live. rewrite C3.
+        destruct (N.eq_dec id p) as [->|Hn].
+        -- right. exists (p, 0, n, top_ser s). split; [left; reflexivity|]. split; [exact Ets | reflexivity].
+        -- destruct (gr_below _ _ G id) as [K|[e [K1 [K2 K3]]]]; [unfold lim; rewrite Estk; subst p; lia | left; exact K|].
+           right. exists e. split; [right; exact K1 | auto].
   - (* through the installed caches *)
     destruct (u_alloc (length (c :: rest)) (c :: rest) (N.of_nat (length (fst (q_bk s)))) n) as [[[stk' nx'] p] evs] eqn:U.
     inversion E; subst w' x. clear E.
@@ -255,7 +280,7 @@ Proof.
     + exists s', p. split; [rewrite Elv in *; exact C1|]. split; [|split; [reflexivity|split; [exact C3|split; [|intros Hn; discriminate Hn]]]].
       2:{ cbn [w_stk]. rewrite A7. reflexivity. }
       assert (Hne' : stk' <> []) by (destruct stk'; [discriminate A7 | discriminate]).
-      constructor; cbn [w_stk w_nx w_ser w_res]; rewrite ?C2, ?C3, ?C4, ?C5, ?C6, ?C7; cbn [fst snd].
+      constructor; unfold lim; cbn [w_stk w_nx w_ser w_res]; rewrite ?C2, ?C3, ?C4, ?C5, ?C6, ?C7; cbn [fst snd].
       * exact A2.
       * apply (gr_ser _ _ G).
       * rewrite A5, <- Estk. apply (gr_sers _ _ G).
@@ -290,6 +315,10 @@ Proof.
               destruct (sers_tail_lt _ _ _ _ Z Hin). lia.
            ++ intros e [<-|He] Ho; [|exact He]. exfalso. unfold le_own in Ho. simpl in Ho. rewrite Ets in Ho.
               pose proof (gr_sorted _ _ G) as Z. rewrite Estk in Z. simpl in Z. lia.
+      * apply (gr_fnd _ _ G).
+      * intros id Hid. unfold direct_live. rewrite C3. destruct stk' as [|c1 r1]; [elim Hne'; reflexivity|].
+        destruct (gr_below _ _ G id) as [K|[e [K1 [K2 K3]]]]; [unfold lim; rewrite Estk; exact Hid | left; exact K|].
+        right. exists e. split; [right; exact K1 | auto].
 Qed.
 
 (* ---------------------------------------------------------------- a release *)
@@ -409,6 +438,14 @@ Proof.
         apply (live_unfreed_post _ _ _ _ O2 Hown e He).
       * apply (gr_seen _ _ G).
       * intros _. exact O2.
+      * apply (apply_evs_nodup _ _ _ _ _ A' (gr_fnd _ _ G)).
+      * intros x Hx. destruct stk' as [|c1 r1]; [elim Hne'; reflexivity|].
+        destruct (gr_below _ _ G x) as [K|[e [J1 [J2 J3]]]]; [unfold lim; rewrite Estk; exact Hx| |].
+        -- left. destruct (apply_evs_freed_grows _ _ _ _ _ A) as [G1 _]. apply G1. exact K.
+        -- right. exists e. split; [|auto]. cbn [q_live mk_q].
+           assert (Hin : In e ((id, 0, req, g_ser c) :: live')) by (eapply Permutation_in; [exact P | exact J1]).
+           destruct Hin as [E|Hin]; [|exact Hin]. subst e. unfold le_own in J2. simpl in J2.
+           pose proof (gr_sorted _ _ G) as Z. rewrite Estk in Z. simpl in Z. lia.
     + intros e Ho. split; [intros He; apply Q; exact He|]. intros He.
       assert (Hin : In e ((id, 0, req, g_ser c) :: live')) by (eapply Permutation_in; [exact P | exact He]).
       destruct Hin as [E|Hin]; [|exact Hin]. subst e. unfold le_own in Ho. simpl in Ho.
@@ -433,7 +470,7 @@ Proof.
     change (length (c :: rest)) with (S (length rest)) in U. rewrite (u_free_unknown _ _ _ _ _ Un) in U. inversion U; subst stk' evs wn. clear U.
     rewrite <- Etw. eexists. split; [apply gcheck_release_unknown_intro; [exact K | reflexivity]|].
     split; [|split; [tauto | reflexivity]].
-    constructor; cbn [w_stk w_nx w_ser w_res q_bk q_live q_seen q_lv q_ptrs q_nser q_base mk_q fst snd].
+    constructor; unfold lim; cbn [w_stk w_nx w_ser w_res q_bk q_live q_seen q_lv q_ptrs q_nser q_base mk_q fst snd].
     * apply (gr_nx _ _ G).
     * apply (gr_ser _ _ G).
     * rewrite ?Elv. cbn [set_top_warned map l_ser set_st g_ser]. exact GS.
@@ -447,6 +484,8 @@ Proof.
     * intros e He Ho. destruct (gr_direct _ _ G e He Ho) as [Z1 [Z2 Z3]]. split; [exact Z1|]. split; [exact Z2|]. intros _. apply Z3. exact Hne.
     * apply (gr_seen _ _ G).
     * intros _. apply OK_set_warned; [reflexivity | reflexivity | exact HOK].
+    * apply (gr_fnd _ _ G).
+    * intros x Hx. apply (gr_below _ _ G x). unfold lim. rewrite Estk. exact Hx.
 Qed.
 
 Lemma sim_release_direct : forall w s id n,
@@ -468,7 +507,7 @@ Proof.
   eexists. split; [apply gcheck_release_known_intro; [|exact A]|].
   { unfold gknown. rewrite (gfind_live_spec _ _ _ _ _ (gr_live_nd _ _ G) F), Elv. unfold top_ser. rewrite Elv. reflexivity. }
   split; [|reflexivity]. fold live'.
-  constructor; cbn [w_stk w_nx w_ser w_res q_bk q_live q_seen q_lv q_ptrs q_nser q_base mk_q fst snd].
+  constructor; unfold lim; cbn [w_stk w_nx w_ser w_res q_bk q_live q_seen q_lv q_ptrs q_nser q_base mk_q fst snd].
   - apply (gr_nx _ _ G).
   - apply (gr_ser _ _ G).
   - rewrite Elv. reflexivity.
@@ -483,6 +522,10 @@ Proof.
     intros [E|E]; [|tauto]. apply (proj2 (Q e He)). symmetry. exact E.
   - apply (gr_seen _ _ G).
   - intros Hn. elim Hn. reflexivity.
+  - constructor; [exact D2 | apply (gr_fnd _ _ G)].
+  - intros x Hx. destruct (gr_below _ _ G x) as [K|[e [J1 [J2 J3]]]]; [unfold lim; rewrite Estk; exact Hx | left; right; exact K|].
+    assert (Hin : In e ((id, 0, n, 0) :: live')) by (eapply Permutation_in; [exact P | exact J1]).
+    destruct Hin as [E|Hin]; [left; left; subst e; exact J3|]. right. exists e. auto.
 Qed.
 
 (* ---------------------------------------------------------------- clearCache *)
@@ -537,7 +580,7 @@ Proof.
   - split; [|split; [reflexivity|split; [reflexivity|]]].
     2:{ cbn [w_stk]. rewrite Estk. subst stk'. simpl. rewrite S3. reflexivity. }
     assert (Hne' : stk' <> []) by (subst stk'; discriminate).
-    constructor; cbn [w_stk w_nx w_ser w_res q_bk q_live q_seen q_lv q_ptrs q_nser q_base mk_q fst snd].
+    constructor; unfold lim; cbn [w_stk w_nx w_ser w_res q_bk q_live q_seen q_lv q_ptrs q_nser q_base mk_q fst snd].
     + apply (gr_nx _ _ G).
     + apply (gr_ser _ _ G).
     + subst stk'. cbn [map set_st g_ser]. rewrite S1. exact GS.
@@ -552,6 +595,9 @@ Proof.
       apply (live_unfreed_post _ _ _ _ O Hown e He).
     + apply (gr_seen _ _ G).
     + intros _. exact O.
+    + apply (apply_evs_nodup _ _ _ _ _ A' (gr_fnd _ _ G)).
+    + intros y Hy. subst stk'. destruct (gr_below _ _ G y) as [K|K]; [unfold lim; rewrite Estk; exact Hy| |right; exact K].
+      left. destruct (apply_evs_freed_grows _ _ _ _ _ A) as [G1 _]. apply G1. exact K.
 Qed.
 
 (* ---------------------------------------------------------------- clearAll / destruction of the innermost object *)
@@ -649,7 +695,7 @@ Proof.
     + unfold gcheck_wipe, mk_gitem. cbn [gi_it i_evs i_ret i_warn gi_out gi_dbl]. rewrite Elv. fold mine others. rewrite A'.
       unfold counters_ok. cbn [gi_dbl gi_out top_held set_st g_st]. rewrite held_wiped. cbn [N.eqb andb negb fst snd]. rewrite Hall. reflexivity.
     + split; [|split; [exact Hdir | destruct pop; reflexivity]].
-      constructor; cbn [w_stk w_nx w_ser w_res q_bk q_live q_seen q_lv q_ptrs q_nser q_base mk_q fst snd].
+      constructor; unfold lim; cbn [w_stk w_nx w_ser w_res q_bk q_live q_seen q_lv q_ptrs q_nser q_base mk_q fst snd].
       * apply (gr_nx _ _ G).
       * apply (gr_ser _ _ G).
       * destruct pop; [reflexivity | exact GS].
@@ -674,6 +720,13 @@ Proof.
         -- rewrite out_loc_wiped. simpl. rewrite lvk_none; [constructor|].
            intros e He. apply Hoth. exact He.
         -- rewrite ids_loc_wiped. exact Oo.
+      * apply (apply_evs_nodup _ _ _ _ _ A' (gr_fnd _ _ G)).
+      * intros y Hy. destruct (N.lt_ge_cases y (q_base s)) as [Hlt|Hge].
+        -- destruct (gr_below _ _ G y) as [K|[e [J1 [J2 J3]]]]; [unfold lim; rewrite Estk; exact Hlt| |].
+           ++ left. destruct (apply_evs_freed_grows _ _ _ _ _ A) as [G1 _]. apply G1. exact K.
+           ++ right. exists e. split; [apply Hdir; assumption | auto].
+        -- left. destruct pop; cbn [tl] in Hy; [|lia]. simpl in O. destruct O as [_ [O2 _]]. cbn [fst snd] in O2.
+           destruct (O2 y Hge Hy) as [K|[]]. exact K.
   - (* an object nested in another: its blocks go back to the cache of the outer object *)
     destruct (u_wipe_nested _ _ _ _ _ _ _ _ _ _ HOK U) as [Ev [W [st' [S0 [Ws O]]]]]. subst evs stk'.
     destruct ls as [|l2 below2]; [discriminate GS|].
@@ -718,7 +771,7 @@ Proof.
         { unfold live'. unfold lids. rewrite map_app. fold (lids (map (reown (l_ser l2)) stuck)). rewrite lids_reown. unfold lids. rewrite <- map_app.
           unfold stuck. apply NoDup_map_filter_prefix. unfold mine, others.
           eapply Permutation_NoDup; [apply Permutation_map; apply (filter_partition_perm _ (owned_by (l_ser l)))|]. apply (gr_live_nd _ _ G). }
-        constructor; cbn [w_stk w_nx w_ser w_res q_bk q_live q_seen q_lv q_ptrs q_nser q_base mk_q fst snd].
+        constructor; unfold lim; cbn [w_stk w_nx w_ser w_res q_bk q_live q_seen q_lv q_ptrs q_nser q_base mk_q fst snd].
         -- apply (gr_nx _ _ G).
         -- apply (gr_ser _ _ G).
         -- simpl in GS. injection GS as G1 G2 G3. destruct pop; unfold c''; cbn [tl map set_st g_ser l_ser]; congruence.
@@ -746,6 +799,10 @@ Proof.
            ++ rewrite out_loc_wiped. simpl. unfold live'. rewrite lvk_app, lvk_reown_other by congruence.
               simpl. rewrite lvk_none; [constructor|]. intros e He. apply Hoth. exact He.
            ++ rewrite ids_loc_wiped. exact O'.
+        -- apply (gr_fnd _ _ G).
+        -- intros y Hy. assert (Hy' : y < q_base s) by (destruct pop; exact Hy).
+           destruct (gr_below _ _ G y) as [K|[e [J1 [J2 J3]]]]; [unfold lim; rewrite Estk; exact Hy' | left; exact K|].
+           right. exists e. split; [|auto]. unfold live'. apply in_app_iff. right. apply Hdir; assumption.
       * intros e Ho. split.
         -- intros He. unfold live' in He. apply in_app_iff in He. destruct He as [He|He]; [|apply Hoth; exact He].
            exfalso. apply in_map_iff in He. destruct He as [e0 [E _]]. subst e. unfold reown, le_own in Ho. cbn [snd] in Ho.
@@ -782,7 +839,7 @@ Proof.
     { split; intros H; rewrite H in GS; [destruct (w_stk w) | destruct (q_lv s)]; try reflexivity; discriminate GS. }
     assert (Hnew : forall e, In e (q_live s) -> le_own e <> w_ser w + 1).
     { intros e He. destruct (gr_live_off _ _ G e He) as [_ [H|H]]; [lia|]. destruct (sers_ok_le _ _ _ (gr_sorted _ _ G) H). lia. }
-    constructor; cbn [w_stk w_nx w_ser w_res q_bk q_live q_seen q_lv q_ptrs q_nser q_base mk_q fst snd].
+    constructor; unfold lim; cbn [w_stk w_nx w_ser w_res q_bk q_live q_seen q_lv q_ptrs q_nser q_base mk_q fst snd].
     + apply (gr_nx _ _ G).
     + rewrite (gr_ser _ _ G). reflexivity.
     + cbn [map g_ser l_ser]. rewrite (gr_ser _ _ G), GS. reflexivity.
@@ -803,6 +860,10 @@ Proof.
            split; [constructor|]. split; [apply (gr_freed _ _ G)|]. intros e He Ho. destruct (gr_direct _ _ G e He Ho) as [Z1 [Z2 _]].
            split; [apply szof_lt in Z1; exact Z1 | exact Z2].
         -- apply (gr_ok _ _ G). intros H. apply Hlv in H. discriminate H.
+    + apply (gr_fnd _ _ G).
+    + intros y Hy. apply (gr_below _ _ G y). unfold lim. destruct (q_lv s) as [|l ls] eqn:Elv.
+      * assert (Hs : w_stk w = []) by (apply Hlv; reflexivity). rewrite Hs. exact Hy.
+      * destruct (w_stk w) eqn:Es; [discriminate GS | exact Hy].
 Qed.
 
 (* ---------------------------------------------------------------- whole scenarios *)
@@ -819,14 +880,49 @@ Proof.
   intros k n0 H. destruct (D2 k n0 H) as [id [A B]]. exists id. split; [exact A|]. apply Hl; [reflexivity | exact B].
 Qed.
 
-Lemma pops_ok : forall k w s, GR w s -> length (w_stk w) = k -> gcheck_pops s (pops k w) = true.
+(* the oracle's books at the end of a scenario (None = it rejected the observation) *)
+Fixpoint gfinal_pops (s : gs) (o : gobs) : option gs :=
+  match o with
+  | [] => match q_lv s with [] => Some s | _ :: _ => None end
+  | g :: o' =>
+      match q_lv s with
+      | [] => None
+      | _ :: _ => match gcheck_wipe true s g with Some s1 => gfinal_pops s1 o' | None => None end
+      end
+  end.
+Fixpoint gfinal_ops (s : gs) (ops : list gop) (o : gobs) : option gs :=
+  match ops with
+  | [] => gfinal_pops s o
+  | op1 :: r => match o with
+                | g :: o' => match gcheck_op s op1 g with Some s1 => gfinal_ops s1 r o' | None => None end
+                | [] => None
+                end
+  end.
+Definition gfinal (sc : gscenario) : option gs := gfinal_ops gs0 sc (grun sc).
+
+Lemma gfinal_pops_check : forall o s sf, gfinal_pops s o = Some sf -> gcheck_pops s o = true /\ q_lv sf = [].
+Proof.
+  induction o as [|g o IH]; intros s sf H; simpl in *.
+  - destruct (q_lv s) eqn:E; [inversion H; subst; auto | discriminate].
+  - destruct (q_lv s); [discriminate|]. destruct (gcheck_wipe true s g); [|discriminate]. apply IH. exact H.
+Qed.
+Lemma gfinal_ops_check : forall ops s o sf, gfinal_ops s ops o = Some sf -> gcheck_ops s ops o = true /\ q_lv sf = [].
+Proof.
+  induction ops as [|op1 r IH]; intros s o sf H; simpl in *.
+  - apply gfinal_pops_check. exact H.
+  - destruct o as [|g o']; [discriminate|]. destruct (gcheck_op s op1 g); [|discriminate]. apply IH. exact H.
+Qed.
+
+Lemma pops_ok : forall k w s, GR w s -> length (w_stk w) = k ->
+  exists sf wf, gfinal_pops s (pops k w) = Some sf /\ GR wf sf /\ w_stk wf = [].
 Proof.
   induction k as [|k IH]; intros w s G Hk.
-  - simpl. pose proof (gr_sers _ _ G) as GS. destruct (w_stk w); [|discriminate Hk]. destruct (q_lv s); [reflexivity | discriminate GS].
+  - simpl. pose proof (gr_sers _ _ G) as GS. destruct (w_stk w) eqn:Es; [|discriminate Hk]. destruct (q_lv s); [|discriminate GS].
+    exists s, w. auto.
   - destruct (w_stk w) as [|c rest] eqn:Estk; [discriminate Hk|]. cbn [pops gstep]. rewrite Estk.
     destruct (u_clear clear_all (c :: rest)) as [[stk' evs] wn] eqn:U.
     destruct (sim_wipe true w s c rest stk' evs wn G Estk U) as [s' [C [G' [_ L]]]].
-    cbn [gcheck_pops]. pose proof (gr_sers _ _ G) as GS. rewrite Estk in GS.
+    cbn [gfinal_pops]. pose proof (gr_sers _ _ G) as GS. rewrite Estk in GS.
     assert (Hq : exists l ls, q_lv s = l :: ls) by (destruct (q_lv s) as [|l ls]; [discriminate GS | eauto]).
     destruct Hq as [l [ls Elv]]. rewrite Elv, C. apply IH; [exact G'|]. cbn [w_stk]. rewrite L. simpl in Hk. lia.
 Qed.
@@ -841,11 +937,12 @@ Lemma set_nth_opt_length : forall l k, length (set_nth_opt k l) = length l.
 Proof. induction l as [|x l IH]; intros [|k]; simpl; try reflexivity. rewrite IH. reflexivity. Qed.
 
 Lemma grun_ops_ok : forall ops w s direct, GR w s -> DV direct w s ->
-  gvalid_ops (length (w_stk w)) direct ops = true -> gcheck_ops s ops (grun_ops w ops) = true.
+  gvalid_ops (length (w_stk w)) direct ops = true ->
+  exists sf wf, gfinal_ops s ops (grun_ops w ops) = Some sf /\ GR wf sf /\ w_stk wf = [].
 Proof.
   induction ops as [|o ops IH]; intros w s direct G D V.
   - simpl. apply pops_ok; [exact G | reflexivity].
-  - cbn [grun_ops]. destruct (gstep w o) as [w1 x] eqn:E. cbn [gcheck_ops].
+  - cbn [grun_ops]. destruct (gstep w o) as [w1 x] eqn:E. cbn [gfinal_ops].
     destruct o as [n|k n|k n| | | |]; cbn [gcheck_op].
     + (* request *)
       destruct (sim_alloc _ _ _ _ _ G E) as [s' [p [C [G' [R1 [L1 [Len Hp]]]]]]]. rewrite C.
@@ -949,15 +1046,156 @@ Proof.
   - intros e [].
   - intros id c [].
   - intros H. elim H. reflexivity.
+  - constructor.
+  - unfold lim. simpl. intros id H. lia.
+Qed.
+
+Lemma gfinal_valid : forall sc, gvalid sc = true -> exists sf wf, gfinal sc = Some sf /\ GR wf sf /\ w_stk wf = [].
+Proof.
+  intros sc V. unfold gfinal, grun. apply (grun_ops_ok sc world0 gs0 []); [exact GR_init | | exact V].
+  split; [reflexivity|]. split; intros k; intros; destruct k; discriminate.
 Qed.
 
 Theorem grun_meets_gspec : forall sc, gvalid sc = true -> gspec sc (grun sc) = true.
 Proof.
-  intros sc V. unfold gspec, grun. apply (grun_ops_ok sc world0 gs0 []); [exact GR_init | | exact V].
-  split; [reflexivity|]. split; intros k; intros; destruct k; discriminate.
+  intros sc V. destruct (gfinal_valid sc V) as [sf [wf [F _]]]. unfold gspec. apply (gfinal_ops_check _ _ _ _ F).
 Qed.
 
 Theorem xrun_meets_xspec : forall s, xvalid s = true -> xspec s (xrun s) = true.
 Proof.
   intros [c|g] V; simpl in *; [apply C18_Proofs.run_meets_spec; exact V | apply grun_meets_gspec; exact V].
 Qed.
+
+(* ---------------------------------------------------------------- the recorder's own books of a whole run *)
+Definition gtrace (o : gobs) : list ev := flat_map (fun g => i_evs (gi_it g)) o.
+
+Ltac gdes H := repeat match type of H with
+  | context [match ?x with _ => _ end] => destruct x eqn:?; try discriminate H
+  end.
+
+Lemma gcheck_op_chks : forall s o g s', gcheck_op s o g = Some s' -> chks (q_bk s) (i_evs (gi_it g)) = Some (q_bk s').
+Proof.
+  intros s o g s' H. destruct o as [n|k n|k n| | | |]; cbn [gcheck_op] in H.
+  - unfold gcheck_alloc in H. gdes H; inversion H; subst; cbn [q_bk mk_q]; eapply apply_evs_chks; eauto.
+  - unfold gcheck_release in H. gdes H; inversion H; subst; cbn [q_bk mk_q]; eapply apply_evs_chks; eauto.
+  - unfold gcheck_release in H. gdes H; inversion H; subst; cbn [q_bk mk_q]; eapply apply_evs_chks; eauto.
+  - unfold gcheck_cc in H. gdes H; inversion H; subst; cbn [q_bk mk_q]; eapply apply_evs_chks; eauto.
+  - unfold gcheck_wipe in H. gdes H; inversion H; subst; cbn [q_bk mk_q]; eapply apply_evs_chks; eauto.
+  - unfold gcheck_push in H. gdes H; inversion H; subst; cbn [q_bk mk_q]; eapply apply_evs_chks; eauto.
+  - unfold gcheck_wipe in H. gdes H; inversion H; subst; cbn [q_bk mk_q]; eapply apply_evs_chks; eauto.
+Qed.
+Lemma gfinal_pops_chks : forall o s sf, gfinal_pops s o = Some sf -> chks (q_bk s) (gtrace o) = Some (q_bk sf).
+Proof.
+  induction o as [|g o IH]; intros s sf H; simpl in H.
+  - destruct (q_lv s); [inversion H; subst; reflexivity | discriminate].
+  - destruct (q_lv s) eqn:E; [discriminate|]. destruct (gcheck_wipe true s g) as [s1|] eqn:W; [|discriminate].
+    unfold gtrace. cbn [flat_map]. rewrite chks_app. rewrite (gcheck_op_chks s GPop g s1 W). apply IH. exact H.
+Qed.
+Lemma gfinal_ops_chks : forall ops s o sf, gfinal_ops s ops o = Some sf -> chks (q_bk s) (gtrace o) = Some (q_bk sf).
+Proof.
+  induction ops as [|op1 r IH]; intros s o sf H; simpl in H.
+  - apply gfinal_pops_chks. exact H.
+  - destruct o as [|g o']; [discriminate|]. destruct (gcheck_op s op1 g) as [s1|] eqn:W; [|discriminate].
+    unfold gtrace. cbn [flat_map]. rewrite chks_app. rewrite (gcheck_op_chks _ _ _ _ W). apply IH. exact H.
+Qed.
+
+(* at the end of every valid scenario nothing is installed any more, the calls the recorder saw were all legal in its own
+   books, no block went back twice, and every block it ever handed out is back -- except the buffers that were requested
+   with nothing installed and are still in use *)
+Theorem installed_all_returned : forall sc, gvalid sc = true ->
+  exists sf, gfinal sc = Some sf /\ q_lv sf = [] /\
+    chks ([], []) (gtrace (grun sc)) = Some (q_bk sf) /\ NoDup (snd (q_bk sf)) /\
+    forall id, id < N.of_nat (length (fst (q_bk sf))) -> In id (snd (q_bk sf)) \/ direct_live sf id.
+Proof.
+  intros sc V. destruct (gfinal_valid sc V) as [sf [wf [F [G E]]]]. exists sf. split; [exact F|].
+  split; [apply (gfinal_ops_check _ _ _ _ F)|]. split; [apply (gfinal_ops_chks _ _ _ _ F)|]. split; [apply (gr_fnd _ _ G)|].
+  intros id Hid. apply (gr_below _ _ G). unfold lim. rewrite E. exact Hid.
+Qed.
+(* ---------------------------------------------------------------- the destructor leaves nothing with the object *)
+Theorem destroyed_holds_nothing : forall w w' x o, (o = GPop \/ o = GClearAll) -> gstep w o = (w', x) -> gi_out x = 0 /\ gi_dbl x = 0.
+Proof.
+  intros w w' x o Ho E. assert (H : forall stk' evs wn, u_clear clear_all (w_stk w) = (stk', evs, wn) -> top_held stk' = 0).
+  { intros stk' evs wn U. unfold u_clear in U. destruct (w_stk w) as [|c rest]; [inversion U; reflexivity|].
+    rewrite clear_all_eq in U. cbn [o_evs mk_out o_warn] in U.
+    destruct (replay_with (u_free (length rest)) rest _) as [[r' e] w0]. inversion U; subst. cbn [top_held set_st g_st]. apply (held_wiped (g_st c)). }
+  destruct Ho as [-> | ->]; cbn [gstep] in E; destruct (u_clear clear_all (w_stk w)) as [[stk' evs] wn] eqn:U;
+    inversion E; subst; cbn [gi_out gi_dbl mk_gitem]; split; [eapply H; eauto | reflexivity | eapply H; eauto | reflexivity].
+Qed.
+
+(* ---------------------------------------------------------------- one installed object over the recorder IS the cache of C18_Model *)
+Lemma replay_rec_efs : forall l, (forall e, In e l -> exists id sz, e = EF id sz) -> replay_with (u_free 0) [] l = ([], l, false).
+Proof.
+  induction l as [|e l IH]; intros H; [reflexivity|]. destruct (H e (or_introl eq_refl)) as [id [sz ->]].
+  cbn [replay_with]. rewrite u_free_nil. cbv beta iota. rewrite IH; [reflexivity|]. intros e' He'. apply H. right. exact He'.
+Qed.
+Lemma destroy_list_efs : forall sz l e, In e (destroy_list sz l) -> exists id s, e = EF id s.
+Proof.
+  intros sz l e H. unfold destroy_list in H. apply in_flat_map in H. destruct H as [b [_ H]]. simpl in H. destruct H as [<-|[<-|[]]]; eauto.
+Qed.
+Theorem single_release_is_dealloc : forall c p n,
+  u_free 1 [c] p n = ([set_st c (fst (dealloc (g_st c) p n))], o_evs (snd (dealloc (g_st c) p n)), o_warn (snd (dealloc (g_st c) p n))).
+Proof.
+  intros c p n. cbn [u_free]. destruct (dealloc (g_st c) p n) as [st' x] eqn:D. cbn [fst snd].
+  rewrite replay_rec_efs; [rewrite orb_false_r; reflexivity|].
+  intros e He. unfold dealloc, unknown_release in D. destruct (is_cached n).
+  - destruct (unlink _ p) as [[b u]|]; inversion D; subst; destruct He.
+  - destruct (unlink _ p) as [[b u]|]; inversion D; subst; [|destruct He]. simpl in He. destruct He as [<-|[<-|[]]]; eauto.
+Qed.
+Theorem single_clear_is_clear : forall c,
+  u_clear clear_cache [c] = ([set_st c (fst (clear_cache (g_st c)))], o_evs (snd (clear_cache (g_st c))), false) /\
+  u_clear clear_all [c] = ([set_st c (fst (clear_all (g_st c)))], o_evs (snd (clear_all (g_st c))), false).
+Proof.
+  intros c. unfold u_clear. rewrite clear_cache_eq, clear_all_eq. cbn [fst snd o_evs mk_out o_warn length]. split.
+  - rewrite replay_rec_efs; [reflexivity|]. intros e He. apply in_flat_map in He. destruct He as [nd [_ He]]. eapply destroy_list_efs; eauto.
+  - rewrite replay_rec_efs; [reflexivity|]. intros e He. apply in_app_iff in He. destruct He as [He|He].
+    + apply in_flat_map in He. destruct He as [nd [_ He]]. eapply destroy_list_efs; eauto.
+    + eapply destroy_list_efs; eauto.
+Qed.
+(* a request: the same lists, the same allocator calls, the same pointer as alloc of C18_Model when the recorder's next id is the cache's *)
+Theorem single_request_is_alloc : forall c n,
+  let st := g_st c in
+  exists st' nx', u_alloc 1 [c] (s_next st) n = ([set_st c st'], nx', match o_ret (snd (alloc st n)) with Some p => p | None => 0 end,
+                                                 o_evs (snd (alloc st n))) /\
+              nx' = s_next (fst (alloc st n)) /\
+              s_cache st' = s_cache (fst (alloc st n)) /\ s_non st' = s_non (fst (alloc st n)) /\ s_warned st' = s_warned (fst (alloc st n)).
+Proof.
+  intros c n. cbv zeta. unfold alloc. destruct (is_cached n) eqn:C.
+  - destruct (n_free (nth (index_for (s_cache (g_st c)) n) (s_cache (g_st c)) dnode)) as [|b fr] eqn:F.
+    + assert (Nd : need (g_st c) n = Some (n_size (nth (index_for (s_cache (g_st c)) n) (s_cache (g_st c)) dnode)))
+        by (unfold need; rewrite C; cbv zeta; rewrite F; reflexivity).
+      cbn [u_alloc]. rewrite Nd. cbn [u_alloc]. unfold alloc_with, create_block. rewrite C. cbv zeta. rewrite F.
+      cbn [fst snd o_ret o_evs mk_out s_next s_cache s_non s_warned b_mem]. eexists. eexists. split; [reflexivity|].
+      cbn [with_cache s_cache s_non s_warned]. split; [lia | auto].
+    + assert (Nd : need (g_st c) n = None) by (unfold need; rewrite C; cbv zeta; rewrite F; reflexivity).
+      cbn [u_alloc]. rewrite Nd. unfold alloc_hit. cbv zeta. rewrite F.
+      cbn [fst snd o_ret o_evs mk_out s_next s_cache s_non s_warned b_mem]. eexists. eexists. split; [reflexivity|].
+      cbn [with_cache s_cache s_non s_warned s_next]. auto.
+  - assert (Nd : need (g_st c) n = Some n) by (unfold need; rewrite C; reflexivity).
+    cbn [u_alloc]. rewrite Nd. cbn [u_alloc]. unfold alloc_with, create_block. rewrite C.
+    cbn [fst snd o_ret o_evs mk_out s_next s_cache s_non s_warned b_mem]. eexists. eexists. split; [reflexivity|].
+    cbn [s_cache s_non s_warned]. split; [lia | auto].
+Qed.
+
+(* ---------------------------------------------------------------- the destructor of the red-team change is refuted *)
+Fixpoint grun_with (step : world -> gop -> world * gitem) (w : world) (ops : list gop) : gobs :=
+  match ops with
+  | [] => (fix pops k w := match k with O => [] | S k' => match step w GPop with (w1, x) => x :: pops k' w1 end end) (length (w_stk w)) w
+  | o :: r => match step w o with (w1, x) => x :: grun_with step w1 r end
+  end.
+Lemma grun_with_gstep : forall ops w, grun_with gstep w ops = grun_ops w ops.
+Proof.
+  induction ops as [|o r IH]; intros w; simpl.
+  - generalize (length (w_stk w)). intros k. revert w. induction k as [|k IHk]; intros w; [reflexivity|]. simpl.
+    destruct (u_clear clear_all (w_stk w)) as [[a b] d]. rewrite IHk. reflexivity.
+  - destruct (gstep w o). rewrite IH. reflexivity.
+Qed.
+Definition leak_scn : gscenario := [GPush; GAlloc 20; GAlloc 300].
+Theorem destroy_by_clear_cache_refuted : gvalid leak_scn = true /\ gspec leak_scn (grun_with gstep_cc_variant world0 leak_scn) = false.
+Proof. vm_compute. split; reflexivity. Qed.
+
+(* satisfiability: a scenario with two objects nested, buffers of both kinds in use at both destructions, one after the other *)
+Definition gdemo : gscenario :=
+  [GAlloc 10; GPush; GAlloc 20; GAlloc 300; GPush; GAlloc 33; GAlloc 400; GRel 1 20; GFor 0 5; GPop; GRel 4 400; GClearCache;
+   GAlloc 16; GPop; GRel 0 10; GPush; GRel 2 300; GAlloc 64; GClearAll; GAlloc 1].
+Lemma gdemo_ok : gvalid gdemo = true /\ gspec gdemo (grun gdemo) = true.
+Proof. vm_compute. split; reflexivity. Qed.
